@@ -6,6 +6,7 @@ is a yield point, virtual time for the 1 s retry sleeps and a gzip shim that inj
 errors.  Callers are simulated threads (one shared ConcurrentCacher) or simulated processes (one
 ConcurrentCacher each, sharing only array, lock and storage - what CobaMultiprocessor sets up).
 """
+import gc as _gc
 import gzip as _gzip
 import io
 import os
@@ -15,8 +16,41 @@ from hashlib import blake2b
 
 from checks.common import quiet_context, vio, weighted
 from sim.world import make_sim, run_sim
-from sim.sched import cur_sim
+from sim.sched import cur_sim, HarnessError
 from sim import prims
+
+
+class GcLock:
+    """The table lock, plus the fault: the at-th time the abandoner enters the critical section (after it has abandoned a reader inside a
+    reference cycle) the cyclic collector runs right there - which closes that reader, whose `finally` gives the read lock back through
+    the very lock that this thread holds."""
+
+    def __init__(self, inner, st, array):
+        self.inner, self.st, self.array = inner, st, array
+
+    def acquire(self, *a, **k):
+        return self.inner.acquire(*a, **k)
+
+    def release(self):
+        return self.inner.release()
+
+    def __enter__(self):
+        self.inner.acquire()
+        st = self.st
+        sim = st["sim"]
+        if st["armed"] and sim.current is not None and sim.current.id == st["task"]:
+            if st["n"] == st["at"]:
+                before = sum(1 for v in self.array._core.data if v > 0)
+                sim.count("fault.gc_inside_table_lock")
+                _gc.collect()
+                if sum(1 for v in self.array._core.data if v > 0) < before:
+                    sim.count("reach.gc_closed_an_abandoned_reader_inside_the_critical_section")
+            st["n"] += 1
+        return self
+
+    def __exit__(self, *exc):
+        self.inner.release()
+        return False
 
 TMP_ROOT = "/dev/shm" if os.path.isdir("/dev/shm") else tempfile.gettempdir()
 
@@ -353,12 +387,31 @@ class C19:
                 else:
                     ops.append(mk_get(key))
             callers.append(ops)
+        gcf = None
+        if faulty and backend != "null" and rng.random() < 0.15:
+            # an abandoned reader inside a reference cycle, and a cyclic collection that starts INSIDE ConcurrentCacher's critical section
+            # (in CPython 3.12 the collector runs at the eval breaker, e.g. at the current_thread() call under `with self._lock:`)
+            k1 = pool[rng.randrange(len(pool))]
+            rest = [k for k in pool if _index(k) != _index(k1)]
+            if rest:
+                opid[0] += 1
+                ops = [{"op": "get_set", "id": opid[0], "key": k1, "abandon": True,
+                        "getter": {"kind": weighted(rng, [("list", 2), ("gen", 2)]), "n": 2 + rng.randrange(3), "raise_at": None},
+                        "body": {"yields": 0, "nest": None, "raise": False}, "disk_fault": None}]
+                for _ in range(1 + rng.randrange(3)):
+                    opid[0] += 1
+                    ops.append({"op": "get_set", "id": opid[0], "key": rest[rng.randrange(len(rest))],
+                                "getter": {"kind": "list", "n": 1 + rng.randrange(3), "raise_at": None},
+                                "body": {"yields": rng.randrange(2), "nest": None, "raise": False}, "disk_fault": None})
+                ci = rng.randrange(len(callers))
+                callers[ci] = ops
+                gcf = {"caller": ci, "at": rng.randrange(5)}
         torn = []
         if faulty and backend == "disk" and rng.random() < 0.6:
             for k in rng.sample(pool, 1 + rng.randrange(min(2, len(pool)))):
                 # a quarter of the torn files are cut at byte 0 (an empty file, which DiskCacher treats as absent)
                 torn.append({"key": k, "n": 1 + rng.randrange(4), "cut": 0.0 if rng.random() < 0.25 else rng.random()})
-        return {"backend": backend, "shape": shape, "keys": pool, "callers": callers, "torn": torn,
+        return {"backend": backend, "shape": shape, "keys": pool, "callers": callers, "torn": torn, "gc": gcf,
                 "restart_readers": 1 + rng.randrange(3),
                 "knobs": {"array_yields": rng.random() < 0.7, "disk_yields": rng.random() < 0.6,
                           "p_stay": weighted(rng, [(0.0, 2), (0.5, 2), (0.85, 1)]),
@@ -367,6 +420,7 @@ class C19:
     # ------------------------------------------------------------------ run
     def run(self, cfg, seed, choices=None):
         from coba.context.cachers import ConcurrentCacher, MemoryCacher, DiskCacher
+        import coba.context.cachers as _cachers
         if cfg.get("kind") == "openml":
             from checks.c19_openml import run_openml
             return run_openml(cfg, seed, choices, make_sim, run_sim, _install_gzip_shim, _sig)
@@ -384,6 +438,10 @@ class C19:
         tmpdir = tempfile.mkdtemp(prefix="c19_", dir=TMP_ROOT) if cfg["backend"] == "disk" else None
         records = []      # (phase, caller, opid, 'value'|'exc', payload, key, pop_at_open)
         state = {}
+
+        gcst = {"armed": False, "task": None, "n": 0, "at": (cfg.get("gc") or {}).get("at"), "sim": sim}
+        if cfg.get("gc"):
+            _gc.collect()       # (garbage of earlier runs must not be finalised by this run's forced collections)
 
         def make_base():
             if cfg["backend"] == "null":
@@ -438,6 +496,25 @@ class C19:
                 arg = getter
             if op.get("disk_fault"):
                 sim.user["c19_disk_fault"][me] = {"at_write": op["disk_fault"], "opid": op["id"]}
+            if op.get("abandon"):
+                def rows():
+                    with cc.get_set(key, arg) as v:
+                        sim.user["c19_pending_pop"].pop(me, None)
+                        yield from v
+                try:
+                    it = rows()
+                    first = next(it)
+                    cell = [it]
+                    cell.append(cell)          # only the cyclic collector will ever close this reader
+                    del it, cell
+                    gcst["armed"], gcst["task"] = True, me
+                    sim.count("fault.reader_abandoned_in_a_cycle")
+                    records.append((phase, cidx, op["id"], "abandoned", first, key, None))
+                except Exception as e:
+                    records.append((phase, cidx, op["id"], "exc", e, key, None))
+                finally:
+                    sim.user["c19_pending_pop"].pop(me, None)
+                return
             try:
                 with cc.get_set(key, arg) as v:
                     sim.user["c19_pending_pop"].pop(me, None)
@@ -464,6 +541,15 @@ class C19:
                 sim.user["c19_disk_fault"].pop(me, None)
 
         def caller_body(cc, ops, phase, cidx):
+            try:
+                _caller_body(cc, ops, phase, cidx)
+            finally:
+                if gcst["armed"] and gcst["task"] == sim.current.id:
+                    # "until the collector runs": the abandoner's own thread collects, outside every critical section
+                    gcst["armed"] = False
+                    _gc.collect()
+
+        def _caller_body(cc, ops, phase, cidx):
             for op in ops:
                 if op["op"] == "rmv":
                     try:
@@ -479,10 +565,34 @@ class C19:
             cells = sim.user["c19_cells"]
             cells.clear()
             array._core.on_write = lambda i, v: cells.__setitem__(i, v)
-            lock = prims.SimLock()
             inner = MonCache(make_base(), mon)
             inner.never_stores = cfg["backend"] == "null"
-            shared = ConcurrentCacher(inner, array, lock)
+            if cfg.get("gc") and phase == "p1":
+                # the lock is the one the code itself would make: ConcurrentCacher's default (threads) / CobaMultiprocessor's (processes)
+                made = []
+                if cfg["shape"] == "threads":
+                    saved = {n: getattr(_cachers, n) for n in ("Lock", "RLock") if hasattr(_cachers, n)}
+                    for n, cls in (("Lock", prims.SimLock), ("RLock", prims.SimRLock)):
+                        if n in saved:
+                            setattr(_cachers, n, lambda cls=cls: made.append(GcLock(cls(), gcst, array)) or made[-1])
+                    try:
+                        shared = ConcurrentCacher(inner, array)
+                    finally:
+                        for n, v in saved.items():
+                            setattr(_cachers, n, v)
+                    lock = shared._lock
+                    if not made or lock is not made[-1]:
+                        raise HarnessError("ConcurrentCacher did not build its default lock through the seam")
+                else:
+                    import inspect
+                    import coba.multiprocessing as _cmp
+                    src = inspect.getsource(_cmp.CobaMultiprocessor.filter)
+                    cls = prims.SimRLock if "spawn_context.RLock()" in src else prims.SimLock
+                    lock = GcLock(cls(), gcst, array)
+                    shared = ConcurrentCacher(inner, array, lock)
+            else:
+                lock = prims.SimLock()
+                shared = ConcurrentCacher(inner, array, lock)
             ccs, tasks = [], []
             for cidx, ops in enumerate(scripts):
                 if cfg["shape"] == "threads":
@@ -609,6 +719,14 @@ class C19:
                     out.append(vio("served_failed_population", f"caller {cidx} op {opid} was served population {pid} of {key!r} which never completed"))
                 elif pop_at_open is not None and pop_at_open != pid:
                     out.append(vio("stale_value", f"caller {cidx} op {opid} read population {pid} of {key!r} but {pop_at_open} was current"))
+            elif kind == "abandoned":
+                pop = None
+                try:
+                    pop = mon.pops.get(int(payload.rstrip("\n").split("|")[1]))
+                except Exception:
+                    pass
+                if pop is None or pop["key"] != key or payload.rstrip("\n") != pop["lines"][0]:
+                    out.append(vio("wrong_value", f"caller {cidx} op {opid} asked {key!r}, its first line was {payload!r}"))
             elif kind == "inj":
                 # an injected failure may only surface in the operation it was planted in (or its outer operation)
                 e_op, where = payload
